@@ -606,8 +606,8 @@ def o_c09(recs):
                     bad.append((i, "refused restore --staged changed %s" % what_changed(b, a)))
                 continue
             if r.res.cls != "ok":
-                # the same path named twice may legitimately fail the second time
-                if len(set(args)) == len(args):
+                # the same path named twice (directly or through a directory) may fail the second time
+                if not any(i != j and (a_ == b_ or under(a_, b_)) for i, a_ in enumerate(args) for j, b_ in enumerate(args)):
                     bad.append((i, "valid restore --staged failed: %r" % r.res.err[-160:]))
                 continue
             exp = dict(idx)
@@ -932,6 +932,13 @@ def o_c18(recs):
         if r.res.cls in ("panic", "timeout"):
             bad.append((i, "%s: exit %s, stderr %r" % (r.res.cls, r.res.code, r.res.err[:200])))
         elif r.res.cls == "err" and not fd_conflict(r.before):
+            if st.name in ("add", "rm", "restore", "restore-staged"):
+                # a path named twice: valid when the arguments were checked, the second occurrence can fail
+                # after the first one did its work; a failure after partial work is not a refusal for
+                # invalid arguments
+                args = [x for x in st.argv[1:] if x not in (b"--", b"--staged")]
+                if any(i != j and (a == b_ or under(a, b_)) for i, a in enumerate(args) for j, b_ in enumerate(args)):
+                    continue
             if not unchanged(r.before, r.after, objects=False):
                 bad.append((i, "refused command changed %s" % what_changed(r.before, r.after)))
     return bad
